@@ -11,6 +11,7 @@ CONSTANTS MCModes, MCWidths, MCGaps, MCFormats, MCMax,   \* configuration space
           StartArgs, AdvArgs, SetArgs, Msgs,             \* call arguments
           MCFreq,                                        \* set_redraw_frequency (effective without a minimum interval)
           Switch, Rewidth, Charsets,                     \* set_format / set_bar_width / character setters between draws
+          MCSecPre,                                      \* what a section holds before the bar is created
           Depth
 
 VARIABLES hist
@@ -48,6 +49,8 @@ SetTwo == {2, 12}
 SetNone == {}
 SetBig == {-1, 29, 58, 199, 250}
 NoMsgs == {}
+NoSecPre == <<>>
+OneSecPre == << <<"s", "e", "c">> >>                       \* the section holds a line of its own above the bar
 NoSwitch == {}
 SwitchQ == {"normal", "msg"}
 RewidthQ == {2, 4}
@@ -61,7 +64,8 @@ TermW == 60
 
 Cfg(mode, bw, gap, fmt, m) == [mode |-> mode, bw |-> bw, mingap |-> gap, maxgap |-> 1024, freq |-> MCFreq, fmt |-> fmt,
                                chars |-> DefaultChars, w |-> TermW,
-                               pre |-> IF fmt = "two" THEN <<>> ELSE Pre, max0 |-> m]
+                               pre |-> IF fmt = "two" THEN <<>> ELSE Pre,
+                               secpre |-> IF mode = "section" THEN MCSecPre ELSE <<>>, max0 |-> m]
 
 \* recorded per call: the event and the configurable part of the configuration in force after it
 Obs == last @@ [conf |-> [fmt |-> cfg.fmt, bw |-> cfg.bw, chars |-> cfg.chars]]
@@ -95,7 +99,7 @@ PStep == [][StepOK']_hvars
 PPercent == [][PercentOK']_hvars
 PThrottle == [][ThrottleOK']_hvars
 PMaxDraws == [][MaxDraws']_hvars
-PFinish == [][FinishOK']_hvars
+PFinish == [][FinishOK' /\ FinishEnds']_hvars
 PQuiet == [][QuietNothing']_hvars
 PPlainOps == [][(Plain => OnlyPlain(last.ops))']_hvars
 
